@@ -445,6 +445,19 @@ class RunA:
         self.ref_cache[data] = ref
         return ref
 
+    def reference_mut(self, data):
+        """Isolated decode of the same frame bytes held in a bytearray of
+        their own (the pinned decoder returns bytearray slices for bodies
+        decoded from a bytearray)."""
+        key = (data, 'x')
+        if key not in self.ref_cache:
+            try:
+                n, ch, f = lib.frame.unmarshal(bytearray(data))
+                self.ref_cache[key] = canon_frame(f)
+            except Exception as e:
+                self.ref_cache[key] = ('exc', canon_exc(e))
+        return self.ref_cache[key]
+
     def check_refs_against_pristine(self, helper, conns):
         """C06: the isolated decode of a frame must not depend on what this
         process decoded before it (here: the frames sent earlier)."""
@@ -471,6 +484,7 @@ class RunA:
         c = Conn()
         c.idx = ci
         c.recv = ct.get('recv', 'A')
+        c.mutable_buf = bool(ct.get('mutable_buf'))
         c.frames = []
         faults = {}
         for fl in ct.get('faults', ()):
@@ -746,7 +760,9 @@ class RunA:
         elif ch != sent_ch or type(ch) is not int:
             what = 'channel %r, sent on %r' % (ch, sent_ch)
             key = 'channel'
-        elif fi.ref is not None and canon_frame(f) != fi.ref[2]:
+        elif fi.ref is not None and canon_frame(f) != (
+                fi.ref[2] if not getattr(c, 'mutable_buf', False)
+                else self.reference_mut(fi.data)):
             what = 'decoded value differs from the isolated decode of ' \
                    'the same frame bytes'
             key = 'value'
@@ -771,6 +787,11 @@ class RunA:
     def wake_a(self, c, seg):
         """Buffering client: append, decode while frames come out."""
         inc = c.inc
+        mut = getattr(c, 'mutable_buf', False)
+        if mut and not isinstance(inc.buf, bytearray):
+            # a client that keeps ONE bytearray as its receive buffer:
+            # extends it in place, decodes from it, compacts it in place
+            inc.buf = bytearray(inc.buf)
         inc.buf += seg
         if 'C20' in self.props:
             self.probe_parts(inc.buf, 'A%d' % c.idx, c)
@@ -787,10 +808,28 @@ class RunA:
                 self.check_prefix_outcome(c, fi, buf, status, val)
             if status == 'ok':
                 n = val[0]
+                compacted = False
                 if rel == 'complete':
-                    self.check_delivery(
-                        c, fi, buf, val,
-                        self.follows(buf, len(fi.data), c, fi))
+                    follows = self.follows(buf, len(fi.data), c, fi)
+                    if mut and type(n) is int and 0 < n <= len(buf):
+                        # the consumed bytes are dropped from the buffer in
+                        # place BEFORE the application looks at the frame
+                        self.count(self.fired, 'buffer_compacted_in_place')
+                        try:
+                            del buf[:n]
+                            compacted = True
+                        except BufferError as e:
+                            self.oracle('C06.delivery')
+                            self.fail('C06', 'delivery',
+                                      ['delivery', 'buffer-retained',
+                                       fi.kind],
+                                      'after decoding a %s frame the '
+                                      'receive buffer cannot be compacted: '
+                                      'the decoder kept a view on the '
+                                      'caller\'s bytearray (%s)' % (
+                                          fi.kind, e), fi.data)
+                    self.check_delivery(c, fi, fi.data if compacted else buf,
+                                        val, follows)
                     inc.ptr += 1
                     if n != len(fi.data):
                         # out of step; some other property's business here
@@ -804,7 +843,8 @@ class RunA:
                 if type(n) is not int or n <= 0:
                     inc.reset = True
                     break
-                inc.buf = buf[n:]
+                if not compacted:
+                    inc.buf = buf[n:]
                 continue
             if rel == 'complete' and status != 'budget':
                 self.oracle('C06.delivery')
@@ -825,6 +865,9 @@ class RunA:
     def wake_b(self, c, seg):
         """Peek client (aiormq style): read 7, frame_parts, read size+1."""
         inc = c.inc
+        if getattr(c, 'mutable_buf', False) and \
+                not isinstance(inc.buf, bytearray):
+            inc.buf = bytearray(inc.buf)
         inc.buf += seg
         if 'C20' in self.props:
             self.probe_parts(inc.buf, 'B%d' % c.idx, c)
